@@ -130,15 +130,16 @@ package storage
 //@ -- Vis(it, c, k): k is a scheduling record the scan has passed (present in the iterator's snapshot, strictly before the cursor c; c == 0: scan finished)
 //@ spec Vis(it *badger.Iterator, c mathint, k mathint) bool = IsQueueKey(k) && badger.itget(it, k) != 0 && (c == 0 || badger.keylt(k, c))
 
-//@ -- The closure run by CacheRetrieveTransactions inside ONE badger Update. No `modifies` clause: it writes the captured result variable
-//@ -- txs besides *txn (the inferred write set is used at the call site). All clauses are about a successful run (err == nil); on an error
-//@ -- Update rolls the transaction back and the caller (kernel/queue.go) drops the returned slice.
+//@ -- The closure run by CacheRetrieveTransactions inside ONE badger Update; it writes *txn and the captured result variable txs.
+//@ -- All clauses are about a successful run (err == nil); on an error Update rolls the transaction back and the caller (kernel/queue.go)
+//@ -- drops the returned slice.
 //@ func (s *BadgerStore) CacheRetrieveTransactions$1
 //@   property C23
 //@   mode append-back -- the existential witnesses of [covered]/[filter] are elements of `processed` before the two appends of an iteration
-//@   requires txn != nil && iscell(txn) && s != nil && len(txs) == 0
+//@   requires txn != nil && iscell(txn) && s != nil && len(txs) == 0 && cap(txs) == 0
 //@   requires [queue-ok] QueueOK(*txn)
 //@   requires [body-ok] BodyOK(*txn)
+//@   modifies *txn, txs
 //@   ensures [limit] len(txs) <= limit || len(txs) == 0
 //@   ensures [bodies] err == nil ==> forall i int :: {txs[i]} 0 <= i && i < len(txs) ==> let T == THash(txs[i]) in txs[i] != nil && common.TxSrc(txs[i]) == old(Body(*txn, T)) && common.TxSrc(txs[i]) != 0
 //@   ensures [distinct] err == nil ==> forall i, j int :: {txs[i], txs[j]} 0 <= i && i < j && j < len(txs) ==> THash(txs[i]) != THash(txs[j])
@@ -149,6 +150,7 @@ package storage
 //@   ensures [only-deleted] err == nil ==> forall k mathint :: {badger.kvget(*txn, k)} badger.kvget(*txn, k) == old(badger.kvget(*txn, k)) || badger.kvget(*txn, k) == 0
 //@   ensures [pairs] err == nil ==> forall k mathint :: {badger.kvget(*txn, k)} keykind(k) == 10 && old(badger.kvget(*txn, k)) != 0 && badger.kvget(*txn, k) == 0 ==> badger.kvget(*txn, OrderKeyId(keyhid(k))) == 0
 //@   loop 0 invariant [state] *txn == old(*txn) && filter != nil && (len(txs) <= limit || len(txs) == 0)
+//@   loop 0 invariant [fresh] (cap(txs) == 0 || fresh(txs)) && (cap(processed) == 0 || fresh(processed))
 //@   loop 0 invariant [cursor] badger.itkey(*it) != 0 ==> IsQueueKey(badger.itkey(*it)) && badger.itget(it, badger.itkey(*it)) != 0
 //@   -- `processed` lists scheduling records the scan has passed and ORDER markers, in blocks that are not the local array `hash`
 //@   loop 0 invariant [kinds] forall m int :: {processed[m]} 0 <= m && m < len(processed) ==> arr(processed[m]) != &hash && (keykind(kvkey(processed[m])) == 10 || keykind(kvkey(processed[m])) == 11) &&
@@ -163,3 +165,51 @@ package storage
 //@   loop 0 invariant [distinct] forall i, j int :: {txs[i], txs[j]} 0 <= i && i < j && j < len(txs) ==> THash(txs[i]) != THash(txs[j])
 //@   loop 1 invariant [deleted] forall m int :: {processed[m]} 0 <= m && m <= rangeindex ==> badger.kvget(*txn, kvkey(processed[m])) == 0
 //@   loop 1 invariant [frame] forall k mathint :: {badger.kvget(*txn, k)} badger.kvget(*txn, k) == old(badger.kvget(*txn, k)) || (exists m int :: {processed[m]} 0 <= m && m <= rangeindex && kvkey(processed[m]) == k)
+
+//@ -- CacheRetrieveTransactions: ONE badger Update around the closure above; the clauses are the closure's, read over the committed state.
+//@ --  * "eligible only by being queued" / "each queueing is returned by at most one retrieval": [consumed] every returned transaction had a
+//@ --    scheduling record, and that record is gone afterwards; cacheStoreTransaction [only-body] never creates one.
+//@ --  * "returns each transaction at most once and no more than the requested limit": [distinct] (by payload hash), [limit].
+//@ --  * "retrieval keeps the stored body": [body-kept] (nothing but QUEUE/ORDER records changes) and [bodies] (what is returned is the stored body).
+//@ --  * "re-queueing after retrieval makes the transaction eligible again": [requeue-possible] the marker is gone, so the next
+//@ --    cacheQueueTransaction takes its [queued] branch and writes a new scheduling record.
+//@ func (s *BadgerStore) CacheRetrieveTransactions
+//@   property C23
+//@   requires s != nil && s.cacheDB != nil
+//@   requires [queue-ok] forall k mathint :: {badger.dbget(*s.cacheDB, k)} badger.dbget(*s.cacheDB, k) != 0 && badger.keypfx(k, strkey(cachePrefixTransactionQueue)) == 0 ==> IsQueueKey(k)
+//@   requires [body-ok] forall h crypto.Hash :: {badger.dbget(*s.cacheDB, PK(h))} badger.dbget(*s.cacheDB, PK(h)) != 0 ==> common.TxHashOfVal(badger.dbget(*s.cacheDB, PK(h))) == h
+//@   modifies *s.cacheDB
+//@   ensures [atomic] err != nil ==> *s.cacheDB == old(*s.cacheDB)
+//@   ensures [limit] len(result0) <= limit || len(result0) == 0
+//@   ensures [bodies] err == nil ==> forall i int :: {result0[i]} 0 <= i && i < len(result0) ==> let T == THash(result0[i]) in result0[i] != nil && common.TxSrc(result0[i]) == old(DbBody(*s.cacheDB, T)) && common.TxSrc(result0[i]) != 0
+//@   ensures [distinct] err == nil ==> forall i, j int :: {result0[i], result0[j]} 0 <= i && i < j && j < len(result0) ==> THash(result0[i]) != THash(result0[j])
+//@   ensures [consumed] err == nil ==> forall i int :: {result0[i]} 0 <= i && i < len(result0) ==> let T == THash(result0[i]) in exists ts mathint :: {QueueKeyId(ts, kvval(T))} 0 <= ts && ts < 18446744073709551616 &&
+//@       old(badger.dbget(*s.cacheDB, QK(ts, T))) != 0 && badger.dbget(*s.cacheDB, QK(ts, T)) == 0
+//@   ensures [requeue-possible] err == nil ==> forall i int :: {result0[i]} 0 <= i && i < len(result0) ==> !DbMarked(*s.cacheDB, THash(result0[i]))
+//@   ensures [body-kept] forall k mathint :: {badger.dbget(*s.cacheDB, k)} keykind(k) != 10 && keykind(k) != 11 ==> badger.dbget(*s.cacheDB, k) == old(badger.dbget(*s.cacheDB, k))
+//@   ensures [only-deleted] forall k mathint :: {badger.dbget(*s.cacheDB, k)} badger.dbget(*s.cacheDB, k) == old(badger.dbget(*s.cacheDB, k)) || badger.dbget(*s.cacheDB, k) == 0
+//@   ensures [pairs] forall k mathint :: {badger.dbget(*s.cacheDB, k)} keykind(k) == 10 && old(badger.dbget(*s.cacheDB, k)) != 0 && badger.dbget(*s.cacheDB, k) == 0 ==> badger.dbget(*s.cacheDB, OrderKeyId(keyhid(k))) == 0
+
+//@ -- ═════════ the public entry points: up to three attempts while the commit reports a conflict ═════════
+//@ -- A failed attempt leaves the cache DB unchanged ([atomic] of the inner function), so the clauses of the last attempt hold for the whole call.
+//@ func (s *BadgerStore) CacheStoreTransaction
+//@   property C23
+//@   requires CacheOK(s) && tx != nil
+//@   requires [decoded] common.DecodedTx(&tx.SignedTransaction)
+//@   modifies *s.cacheDB, tx.hash, tx.pmbytes
+//@   ensures [atomic] err != nil ==> *s.cacheDB == old(*s.cacheDB)
+//@   ensures [only-body] forall k mathint :: {badger.dbget(*s.cacheDB, k)} k != PK(tx.hash) ==> badger.dbget(*s.cacheDB, k) == old(badger.dbget(*s.cacheDB, k))
+//@   ensures [stored] err == nil ==> DbBody(*s.cacheDB, tx.hash) != 0
+//@   loop 0 invariant rangeint_iter < 3 && CacheOK(s) && common.DecodedTx(&tx.SignedTransaction) && *s.cacheDB == old(*s.cacheDB)
+
+//@ func (s *BadgerStore) CacheQueueTransaction
+//@   property C23
+//@   requires CacheOK(s) && tx != nil
+//@   requires [decoded] common.DecodedTx(&tx.SignedTransaction)
+//@   modifies *s.cacheDB, tx.hash, tx.pmbytes
+//@   ensures [atomic] err != nil ==> *s.cacheDB == old(*s.cacheDB)
+//@   ensures [marked] err == nil ==> DbMarked(*s.cacheDB, tx.hash)
+//@   ensures [queued] let H == tx.hash in err == nil && !old(DbMarked(*s.cacheDB, H)) ==> DbBody(*s.cacheDB, H) != 0 && common.TxHashOfVal(DbBody(*s.cacheDB, H)) == H && DbQueued(*s.cacheDB, H)
+//@   ensures [frame] forall k mathint :: {badger.dbget(*s.cacheDB, k)} keyhid(k) != kvval(tx.hash) || (keykind(k) != 10 && keykind(k) != 11 && keykind(k) != 12) ==> badger.dbget(*s.cacheDB, k) == old(badger.dbget(*s.cacheDB, k))
+//@   ensures [only-adds] forall k mathint :: {badger.dbget(*s.cacheDB, k)} old(badger.dbget(*s.cacheDB, k)) != 0 ==> badger.dbget(*s.cacheDB, k) != 0
+//@   loop 0 invariant rangeint_iter < 3 && CacheOK(s) && common.DecodedTx(&tx.SignedTransaction) && *s.cacheDB == old(*s.cacheDB)
